@@ -10,6 +10,29 @@ TRUST = ("z3 5.1.0 (thorough tier cross-checks every decided query with cvc5 1.4
          "semantics of the kernels; the stubs listed in the evidence file")
 
 CHECKS = {
+    "C10": dict(
+        text="The real ESFTMC_{F2,FL,F3,g1} classes (constructors, get_result, _convolve_FX, the njit TMC kernels) run on symbolic "
+             "x in (0,1], Q2>0, M^2>=0 (parametrised by rho>=1) and symbolic grid nodes, with the uncorrected structure "
+             "functions as uninterpreted functions and the basis convolutions as formal numbers; all feasible paths (which "
+             "basis functions lie below xi, xi below the grid) are explored and on each z3 proves values and propagated errors "
+             "equal to the published combination (Schienbein et al., Kretzer-Reno, Bluemlein-Tkabladze): prefactors, which "
+             "observable is integrated, which integral (real kernel run at symbolic z, matched by solver-proved equality), the "
+             "Nachtmann point; M=0 returns the uncorrected function exactly; ValueError exactly when xi(x) is below the grid.",
+        note=TRUST + "; approximate mode oracle: Schienbein closed forms for F2/F3, integrand frozen at the bottom end for FL/g1 "
+             "(docs); accuracy of the j-sum as an interpolation of the integral is outside.",
+        technique="symbolic execution of the real TMC classes with uninterpreted structure functions + z3 QF_UFNRA equality",
+        design="§4 C10",
+    ),
+    "C11": dict(
+        text="The real CrossSection.load/get_esf, EvaluatedCrossSection.get_result, xs_coeffs_(un)polarized and the ESFResult "
+             "linear algebra run on symbolic x, y, Q2, M_h^2, M_W^2, G_F and formal structure-function tensors; z3 proves every "
+             "entry (values and errors, every order key incl. scale-variation keys) equal to N (y+ F2 - yL FL +- y- xF3) with "
+             "the documented N, y+-, yL for all ten kinds and four projectiles, plus the wiring (same flavour, same kinematics, "
+             "TMC-aware request, F3 skipped only where its coefficient is zero).",
+        note=TRUST + "; XSFPFCC normalisation oracle follows the standard derivation (4 pi), docs print 8 pi (recorded tension).",
+        technique="symbolic execution of the real cross-section code (z3 proxies, forked paths) + z3 NRA equality",
+        design="§4 C11",
+    ),
     "C07": dict(
         text="The real Combiner (collect, light/heavylight/heavy components, every kernel generator, get_weight/get_fl11_weight "
              "with nc_pos_charge) runs on symbolic electroweak parameters for each member of a partition; every observable "
